@@ -399,6 +399,45 @@ func Run(c *core.Ctx) int {
 			c.Count("cross-process-envelopes", int64(len(workerWant)))
 		}
 	}
+	// recalculation after an input edit: nothing of the first calculation may survive
+	// ("recompute everything from inputs, reset totals")
+	if rc.Doc != nil || rc.Data == nil {
+		var sd []*calcproto.Doc
+		if rc.Doc != nil {
+			sd = []*calcproto.Doc{rc.Doc}
+		} else {
+			for i := 0; i < c.Pick(800, 40000); i++ {
+				sd = append(sd, calcproto.Gen(c.Rng, calcproto.GenOpts{}))
+			}
+		}
+		for _, d := range sd {
+			inv := d.Invoice()
+			var cerr error
+			if pan := core.Protect(func() { cerr = inv.Calculate() }); pan != "" || cerr != nil {
+				continue
+			}
+			if b, _ := json.Marshal(inv); hugeAmount.Match(b) {
+				continue
+			}
+			for e := range calcproto.Edits {
+				var diff string
+				var ok bool
+				if pan := core.Protect(func() { _, diff, ok = calcproto.RecalcAfterEdit(inv, e) }); pan != "" {
+					c.Fail("", "recalculation after "+calcproto.Edits[e].Name+" panicked: "+pan, Case{Name: "recalc", Doc: d})
+					break
+				}
+				if !ok {
+					continue
+				}
+				c.Count("recalc-after-edit:"+calcproto.Edits[e].Name, 1)
+				c.Eval("recalc", true)
+				if diff != "" {
+					c.Fail("", "a figure of the first calculation survives a recalculation: "+diff, Case{Name: "recalc", Doc: d})
+					break
+				}
+			}
+		}
+	}
 	return c.Finish("every file under /repo/examples (inputs and calculated outputs), every example invoice crossed with every registered addon (a quarter of the pairs in the quick tier), and random invoices of the C01 generator with random series/code; each calculated, serialised, parsed and recalculated three times with bytes and digests compared, parse/serialise identity, non-mutation by validate/digest/verify/extract, and a second process with GOMAXPROCS=1; every evaluated document is non-trivial; distinct by name", nil)
 }
 
